@@ -70,6 +70,8 @@ func (j *JApi) ToJsonIndent() ([]byte, error) {
 }
 
 func (j *JApi) ToOpenAPIJson() (b []byte, err error) {
+	catalog.SchemaCoreMu.Lock() // the OpenAPI converter of jsight-schema-core is not safe for concurrent use
+	defer catalog.SchemaCoreMu.Unlock()
 	defer recoverOpenAPIExport(&b, &err)
 	o, e := openapi.NewOpenAPI(j.Catalog())
 	if e != nil {
@@ -79,6 +81,8 @@ func (j *JApi) ToOpenAPIJson() (b []byte, err error) {
 }
 
 func (j *JApi) ToOpenAPIJsonIndent() (b []byte, err error) {
+	catalog.SchemaCoreMu.Lock() // see ToOpenAPIJson
+	defer catalog.SchemaCoreMu.Unlock()
 	defer recoverOpenAPIExport(&b, &err)
 	o, e := openapi.NewOpenAPI(j.Catalog())
 	if e != nil {
